@@ -28,9 +28,9 @@ import inspect, warnings, numbers, contextlib
 import numpy as np
 
 PROP = 'C17'
-GENERATED = ['ParsDispatch', 'ParsRefs', 'ParsSimLevel']
+GENERATED = ['ParsDispatch', 'ParsRefs', 'ParsSimLevel', 'ParsTimePar']
 DRIVER = 'Drivers/C17.lean'
-DRIVER_MODULES = ['StarsimModel.Model.Pars', 'StarsimModel.Model.ParsDeep', 'StarsimModel.Model.ParsRefs', 'StarsimModel.Generated.ParsRefs', 'StarsimModel.Model.ParsSim', 'StarsimModel.Generated.ParsSimLevel', 'StarsimModel.Model.Proto']
+DRIVER_MODULES = ['StarsimModel.Model.Pars', 'StarsimModel.Model.ParsDeep', 'StarsimModel.Model.ParsRefs', 'StarsimModel.Generated.ParsRefs', 'StarsimModel.Model.ParsSim', 'StarsimModel.Generated.ParsSimLevel', 'StarsimModel.Model.ParsTime', 'StarsimModel.Generated.ParsTimePar', 'StarsimModel.Model.Proto']
 RULE = ('exhaustive: every constructible class of ss.find_modules() x every parameter x 19 new-value kinds (direct update and '
         'constructor route), a probe module covering the remaining old kinds (full 23 x 19 table), unknown keys at 9 routes x '
         'sampled classes, 7 spellings x every registered name; seeded part: sentinel values, sampled classes for routes, '
@@ -575,6 +575,8 @@ def correspond(ctx):
     # ---- (4d) round 4: sim-level shortcut parameters and derived settings (validate_demographics) ----------------------
     from harness.props import c17_simlevel
     c17_simlevel.round4_cases(ctx, ask)
+    from harness.props import c17_timepar
+    c17_timepar.round5_cases(ctx, ask)
 
     # ---- (5) inputs copied -----------------------------------------------------------------------------------------
     def cb_copy(ml):
